@@ -198,18 +198,19 @@ Definition map_facts (sigs : list (sigmap S)) (ents : keysigs S) (i : nat) (u : 
             (forall j sg, In (j, sg) m -> Z.of_N j < len (ukeys u)) /\
             (forall j sg, In (j, sg) m -> exists k, nth_error (ukeys u) (N.to_nat j) = Some k /\ In (k, sg) ents).
 
-Lemma vi_loop_map : forall us i (sigs : list (sigmap S)) txType ks allKeys ksf akf P,
+Lemma vi_loop_map : forall us i (sigs : list (sigmap S)) txType hash fork ks allKeys ksf akf P,
   Forall (fun m => NoDup (map fst m)) sigs ->
   incl (ptrs ks) P -> NoDup (P ++ map kptr (all_keys us)) ->
-  vi_loop i us sigs None txType ks allKeys = Ok (ksf, akf) ->
+  vi_loop i us sigs None txType hash fork ks allKeys = Ok (ksf, akf) ->
   exists ents, ksf = ks ++ ents /\
     forall n u, nth_error us n = Some u -> is_script_type (utype u) = true ->
                 map_facts sigs ents (i + n) u.
 Proof.
-  induction us as [|u us IH]; intros i sigs txType ks allKeys ksf akf P Hwf Hincl Hnd H; cbn [vi_loop] in H.
+  induction us as [|u us IH]; intros i sigs txType hash fork ks allKeys ksf akf P Hwf Hincl Hnd H; cbn [vi_loop] in H.
   - inversion H; subst. exists []. rewrite app_nil_r. split; [reflexivity|].
     intros n u Hn. destruct n; discriminate.
   - unfold all_keys in Hnd. cbn [map concat] in Hnd. rewrite map_app in Hnd.
+    destruct (lock_blocks u hash fork); [discriminate|].
     destruct (validate_utxo i u sigs None txType ks (len allKeys)) as [ks1| |] eqn:Hv; cbn [bind] in H;
       [|discriminate|discriminate].
     assert (Hstep : exists ents1, ks1 = ks ++ ents1 /\ incl (ptrs ents1) (map kptr (ukeys u)) /\
@@ -305,16 +306,16 @@ Definition map_input_ok (sound : Prop) (sigs : list (sigmap S)) (i : nat) (u : u
 Definition bat_sound : Prop :=
   forall E, bat E = true -> forall k s, In (k, s) E -> ver k s = true.
 
-Lemma threshold_map : forall us (sigs : list (sigmap S)) txType,
+Lemma threshold_map : forall us (sigs : list (sigmap S)) txType hash fork,
   NoDup (map kptr (all_keys us)) ->
   Forall (fun m => NoDup (map fst m)) sigs ->
-  validate_inputs ver bat aggv us sigs None txType = Ok tt ->
+  validate_inputs ver bat aggv us sigs None txType hash fork = Ok tt ->
   forall i u, nth_error us i = Some u -> is_script_type (utype u) = true ->
     map_input_ok bat_sound sigs i u.
 Proof.
-  intros us sigs txType Hnd Hwf H i u Hu Hs. unfold validate_inputs in H.
+  intros us sigs txType hash fork Hnd Hwf H i u Hu Hs. unfold validate_inputs in H.
   cbn [option_map] in H.
-  destruct (vi_loop 0 us sigs None txType [] []) as [[ksf akf]| |] eqn:Hl; cbn [bind] in H; [|discriminate|discriminate].
+  destruct (vi_loop 0 us sigs None txType hash fork [] []) as [[ksf akf]| |] eqn:Hl; cbn [bind] in H; [|discriminate|discriminate].
   apply vi_loop_map with (P := []) in Hl; [| assumption | intros ? [] | exact Hnd].
   destruct Hl as [ents [E Hf]]. cbn [app] in E. subst ksf.
   destruct (Hf i u Hu Hs) as [m [Hm [Hsv [Hr Hin]]]]. cbn [Nat.add] in Hm.
@@ -337,18 +338,18 @@ Qed.
 
 (* the precise call: what is handed to BatchVerify is exactly the collected
    entries, every map entry of every script input among them *)
-Lemma threshold_map_batch_call : forall us (sigs : list (sigmap S)) txType,
+Lemma threshold_map_batch_call : forall us (sigs : list (sigmap S)) txType hash fork,
   NoDup (map kptr (all_keys us)) ->
   Forall (fun m => NoDup (map fst m)) sigs ->
-  validate_inputs ver bat aggv us sigs None txType = Ok tt ->
+  validate_inputs ver bat aggv us sigs None txType hash fork = Ok tt ->
   exists ents : keysigs S,
     (forall i u m j os, nth_error us i = Some u -> is_script_type (utype u) = true ->
        nth_error sigs i = Some m -> In (j, os) m ->
        exists k, nth_error (ukeys u) (N.to_nat j) = Some k /\ In (kval k, os) (ks_entries ents)) /\
     (ents <> [] -> (length us <= length ents)%nat /\ batch_verify ver bat (ks_entries ents) = true).
 Proof.
-  intros us sigs txType Hnd Hwf H. unfold validate_inputs in H. cbn [option_map] in H.
-  destruct (vi_loop 0 us sigs None txType [] []) as [[ksf akf]| |] eqn:Hl; cbn [bind] in H; [|discriminate|discriminate].
+  intros us sigs txType hash fork Hnd Hwf H. unfold validate_inputs in H. cbn [option_map] in H.
+  destruct (vi_loop 0 us sigs None txType hash fork [] []) as [[ksf akf]| |] eqn:Hl; cbn [bind] in H; [|discriminate|discriminate].
   apply vi_loop_map with (P := []) in Hl; [| assumption | intros ? [] | exact Hnd].
   destruct Hl as [ents [E Hf]]. cbn [app] in E. subst ksf. exists ents. split.
   - intros i u m j os Hu Hs Hm Hj. destruct (Hf i u Hu Hs) as [m' [Hm' [_ [_ Hin]]]].
@@ -397,19 +398,20 @@ Definition agg_facts (signers : list Z) (base : Z) (us : list utxo) (n : nat) (u
 Lemma offset_of_S : forall u us n, offset_of (u :: us) (Datatypes.S n) = len (ukeys u) + offset_of us n.
 Proof. intros. unfold offset_of. cbn [firstn map concat]. apply len_app. Qed.
 
-Lemma vi_loop_agg : forall us i (sigs : list (sigmap S)) signers txType ks allKeys ksf akf,
-  vi_loop i us sigs (Some signers) txType ks allKeys = Ok (ksf, akf) ->
+Lemma vi_loop_agg : forall us i (sigs : list (sigmap S)) signers txType hash fork ks allKeys ksf akf,
+  vi_loop i us sigs (Some signers) txType hash fork ks allKeys = Ok (ksf, akf) ->
   akf = allKeys ++ all_keys us /\ (length ks <= length ksf)%nat /\
   forall n u, nth_error us n = Some u -> is_script_type (utype u) = true ->
     agg_facts signers (len allKeys) us n u /\
     (0 < count_in_window signers (len allKeys + offset_of us n) (len allKeys + offset_of us n + len (ukeys u)) ->
      (1 <= length ksf)%nat).
 Proof.
-  induction us as [|u us IH]; intros i sigs signers txType ks allKeys ksf akf H; cbn [vi_loop] in H.
+  induction us as [|u us IH]; intros i sigs signers txType hash fork ks allKeys ksf akf H; cbn [vi_loop] in H.
   - inversion H; subst. unfold all_keys. cbn [map concat]. rewrite app_nil_r.
     split; [reflexivity|]. split; [lia|].
     intros n u Hn. destruct n; discriminate.
-  - destruct (validate_utxo i u sigs (Some signers) txType ks (len allKeys)) as [ks1| |] eqn:Hv; cbn [bind] in H;
+  - destruct (lock_blocks u hash fork); [discriminate|].
+    destruct (validate_utxo i u sigs (Some signers) txType ks (len allKeys)) as [ks1| |] eqn:Hv; cbn [bind] in H;
       [|discriminate|discriminate].
     apply IH in H. destruct H as [Ea [Hl Hf]].
     assert (Hstep : (length ks <= length ks1)%nat /\
@@ -483,13 +485,13 @@ Definition agg_input_ok (sg : S) (signers : list Z) (us : list utxo) (i : nat) (
        exists sel, aggv sg sel = true /\ map fst sel = signers /\
                    Forall (fun e => nth_error (map kval (all_keys us)) (Z.to_nat (fst e)) = Some (snd e)) sel).
 
-Lemma threshold_aggregate : forall us (sigs : list (sigmap S)) sg signers txType,
-  validate_inputs ver bat aggv us sigs (Some (sg, signers)) txType = Ok tt ->
+Lemma threshold_aggregate : forall us (sigs : list (sigmap S)) sg signers txType hash fork,
+  validate_inputs ver bat aggv us sigs (Some (sg, signers)) txType hash fork = Ok tt ->
   forall i u, nth_error us i = Some u -> is_script_type (utype u) = true ->
     agg_input_ok sg signers us i u.
 Proof.
-  intros us sigs sg signers txType H i u Hu Hs. unfold validate_inputs in H. cbn [option_map snd] in H.
-  destruct (vi_loop 0 us sigs (Some signers) txType [] []) as [[ksf akf]| |] eqn:Hl; cbn [bind] in H; [|discriminate|discriminate].
+  intros us sigs sg signers txType hash fork H i u Hu Hs. unfold validate_inputs in H. cbn [option_map snd] in H.
+  destruct (vi_loop 0 us sigs (Some signers) txType hash fork [] []) as [[ksf akf]| |] eqn:Hl; cbn [bind] in H; [|discriminate|discriminate].
   apply vi_loop_agg in Hl. destruct Hl as [Ea [_ Hf]]. cbn [app] in Ea. subst akf.
   destruct (Hf i u Hu Hs) as [[Hva Hsv] Hne]. cbn zeta in Hsv.
   change (len (@nil key)) with 0 in Hsv, Hne. rewrite !Z.add_0_l in Hsv, Hne.
@@ -515,6 +517,58 @@ Proof.
     destruct (collect_signers (-1) signers (map kval (all_keys us))) as [sel|] eqn:Hc; [|discriminate].
     destruct (collect_signers_spec _ _ _ _ Hc) as [Hm [Hi [Hr Hsel]]].
     exists sel. repeat split; assumption.
+Qed.
+
+(* ---- the lock state ------------------------------------------------------------------------------- *)
+
+Lemma vi_loop_locks : forall us i (sigs : list (sigmap S)) ag txType hash fork ks allKeys r,
+  vi_loop i us sigs ag txType hash fork ks allKeys = Ok r ->
+  Forall (fun u => lock_blocks u hash fork = false) us.
+Proof.
+  induction us as [|u us IH]; intros i sigs ag txType hash fork ks allKeys r H; [constructor|].
+  cbn [vi_loop] in H. destruct (lock_blocks u hash fork) eqn:E; [discriminate|].
+  destruct (validate_utxo i u sigs ag txType ks (len allKeys)) as [ks1| |]; cbn [bind] in H; try discriminate.
+  constructor; [exact E | eapply IH; exact H].
+Qed.
+
+Lemma accepted_not_blocked : forall us (sigs : list (sigmap S)) ag txType hash fork,
+  validate_inputs ver bat aggv us sigs ag txType hash fork = Ok tt ->
+  Forall (fun u => lock_blocks u hash fork = false) us.
+Proof.
+  intros us sigs ag txType hash fork H. unfold validate_inputs in H.
+  destruct (vi_loop 0 us sigs (option_map snd ag) txType hash fork [] []) as [r| |] eqn:Hl; [|discriminate|discriminate].
+  eapply vi_loop_locks. exact Hl.
+Qed.
+
+(* the decision depends on the lock state only through [lock_blocks]: when no input is
+   blocked, the result is the one for the same UTXOs with every lock cleared *)
+Definition unlocked (u : utxo) : utxo := mkUtxo (utype u) (ukeys u) (uscript u) 0.
+
+Lemma validate_utxo_unlocked : forall i u (sigs : list (sigmap S)) ag txType ks off,
+  validate_utxo i (unlocked u) sigs ag txType ks off = validate_utxo i u sigs ag txType ks off.
+Proof. intros. reflexivity. Qed.
+
+Lemma vi_loop_lock_irrelevant : forall us i (sigs : list (sigmap S)) ag txType hash fork ks allKeys,
+  Forall (fun u => lock_blocks u hash fork = false) us ->
+  vi_loop i us sigs ag txType hash fork ks allKeys =
+  vi_loop i (map unlocked us) sigs ag txType hash fork ks allKeys.
+Proof.
+  induction us as [|u us IH]; intros i sigs ag txType hash fork ks allKeys HF; [reflexivity|].
+  inversion HF as [|? ? Hu HF']; subst. cbn [map vi_loop]. rewrite Hu.
+  assert (Hz : lock_blocks (unlocked u) hash fork = false) by reflexivity. rewrite Hz.
+  rewrite validate_utxo_unlocked.
+  destruct (validate_utxo i u sigs ag txType ks (len allKeys)) as [ks1| |]; cbn [bind]; try reflexivity.
+  change (ukeys (unlocked u)) with (ukeys u). apply IH. exact HF'.
+Qed.
+
+Lemma lock_state_irrelevant : forall us (sigs : list (sigmap S)) ag txType hash fork,
+  Forall (fun u => lock_blocks u hash fork = false) us ->
+  validate_inputs ver bat aggv us sigs ag txType hash fork =
+  validate_inputs ver bat aggv (map unlocked us) sigs ag txType hash fork.
+Proof.
+  intros us sigs ag txType hash fork HF. unfold validate_inputs.
+  rewrite (vi_loop_lock_irrelevant us 0 sigs (option_map snd ag) txType hash fork [] [] HF).
+  rewrite map_length. reflexivity.
 Qed.
 
 (* ---- windows partition the signer list ---------------------------------------------------------------- *)
